@@ -1,0 +1,64 @@
+//go:build verif
+
+// Contracts for sign.go (property C03). Crypto and protobuf marshalling are external and
+// uninterpreted: the contracts pin down WHICH key, WHICH bytes and WHICH signature are handed to
+// them, via the ghost records of the direct calls (lastarg / lastret). Comment-only.
+
+package pubsub
+
+// messagePubKey returns a key only if the author ID parsed, and either the key was extracted
+// from the ID itself (no attached key) or the attached key unmarshalled and MATCHES the ID.
+//@ func messagePubKey
+//@   property C03
+//@   requires m: m != nil
+//@   modifies nothing
+//@   ensures id-parsed: result1 == nil ==> calls(peer.IDFromBytes) == old(calls(peer.IDFromBytes)) + 1 &&
+//@        lastret(peer.IDFromBytes, 1) == nil && lastarg(peer.IDFromBytes, 0) == m.From
+//@   ensures embedded-key: result1 == nil && m.Key == nil ==>
+//@        calls((peer.ID).ExtractPublicKey) == old(calls((peer.ID).ExtractPublicKey)) + 1 &&
+//@        lastarg((peer.ID).ExtractPublicKey, 0) == lastret(peer.IDFromBytes, 0) &&
+//@        lastret((peer.ID).ExtractPublicKey, 1) == nil && result0 == lastret((peer.ID).ExtractPublicKey, 0) && result0 != nil
+//@   ensures attached-key: result1 == nil && m.Key != nil ==>
+//@        calls(crypto.UnmarshalPublicKey) == old(calls(crypto.UnmarshalPublicKey)) + 1 && lastarg(crypto.UnmarshalPublicKey, 0) == m.Key &&
+//@        lastret(crypto.UnmarshalPublicKey, 1) == nil && result0 == lastret(crypto.UnmarshalPublicKey, 0)
+//@   ensures attached-key-matches: result1 == nil && m.Key != nil ==>
+//@        calls((peer.ID).MatchesPublicKey) == old(calls((peer.ID).MatchesPublicKey)) + 1 && lastret((peer.ID).MatchesPublicKey) &&
+//@        lastarg((peer.ID).MatchesPublicKey, 0) == lastret(peer.IDFromBytes, 0) && lastarg((peer.ID).MatchesPublicKey, 1) == result0
+//@   ensures error-nokey: result1 != nil ==> result0 == nil
+
+// verifyMessageSignature returns nil only if PubKey.Verify said true for: the key bound to the
+// author (messagePubKey), the sign prefix + marshalling of the message with Signature and Key
+// cleared and every other field kept, and the message's own signature.
+//@ func verifyMessageSignature
+//@   property C03
+//@   requires m: m != nil
+//@   noframe
+//@   ensures verified: result == nil ==> calls(PubKey.Verify) == old(calls(PubKey.Verify)) + 1 &&
+//@        lastret(PubKey.Verify, 0) && lastret(PubKey.Verify, 1) == nil
+//@   ensures key-bound-to-author: result == nil ==> lastarg(PubKey.Verify, 0) == lastret(messagePubKey, 0) &&
+//@        lastarg(messagePubKey, 0) == m && lastret(messagePubKey, 1) == nil
+//@   ensures own-signature: result == nil ==> lastarg(PubKey.Verify, 2) == m.Signature
+//@   ensures prefixed-bytes: result == nil ==> lastarg(PubKey.Verify, 1) == lastret(withSignPrefix) &&
+//@        lastarg(withSignPrefix, 0) == lastret((*pb.Message).Marshal, 0) && lastret((*pb.Message).Marshal, 1) == nil
+//@   ensures cleared-copy: result == nil ==> lastarg((*pb.Message).Marshal, 0) != m &&
+//@        lastarg((*pb.Message).Marshal, 0).Signature == nil && lastarg((*pb.Message).Marshal, 0).Key == nil
+//@   ensures fields-kept: result == nil ==> lastarg((*pb.Message).Marshal, 0).From == m.From &&
+//@        lastarg((*pb.Message).Marshal, 0).Data == m.Data && lastarg((*pb.Message).Marshal, 0).Seqno == m.Seqno &&
+//@        lastarg((*pb.Message).Marshal, 0).Topic == m.Topic
+//@   ensures message-untouched: m.Signature == old(m.Signature) && m.Key == old(m.Key) && m.From == old(m.From) && m.Data == old(m.Data)
+
+// signMessage signs prefix + marshalling of the message as given (Signature and Key are still
+// unset: Topic.validate builds a fresh message), stores the signature, and attaches the public
+// key exactly when it cannot be extracted from the peer ID.
+//@ func signMessage
+//@   property C03
+//@   requires m: m != nil
+//@   noframe
+//@   ensures signed: result == nil ==> m.Signature == lastret(PrivKey.Sign, 0) && lastret(PrivKey.Sign, 1) == nil &&
+//@        lastarg(PrivKey.Sign, 0) == key && lastarg(PrivKey.Sign, 1) == lastret(withSignPrefix) &&
+//@        lastarg(withSignPrefix, 0) == lastret((*pb.Message).Marshal, 0) && lastarg((*pb.Message).Marshal, 0) == m
+//@   ensures key-kept-when-embedded: result == nil && lastret((peer.ID).ExtractPublicKey, 0) != nil ==> m.Key == old(m.Key)
+//@   ensures extraction-from-author: result == nil ==> lastarg((peer.ID).ExtractPublicKey, 0) == pid
+//@   ensures attached-key-is-public: result == nil && lastret((peer.ID).ExtractPublicKey, 0) == nil ==>
+//@        m.Key == lastret(crypto.MarshalPublicKey, 0) && lastarg(crypto.MarshalPublicKey, 0) == lastret(PrivKey.GetPublic) && lastarg(PrivKey.GetPublic, 0) == key
+//@   ensures payload-untouched: m.From == old(m.From) && m.Data == old(m.Data) && m.Seqno == old(m.Seqno) && m.Topic == old(m.Topic)
